@@ -251,6 +251,10 @@ def default_replay(ctx, key):
         return both
     if re.match(r'(C04:unpaired|C04:swap|C10:unpaired|C06:unpaired|C16:unpaired)', k):
         return lambda model, p: native.replay_unpaired(ctx, model, p['name'])
+    if re.match(r'C03:rank', k):
+        return lambda model, p: native.replay_quantile_ranks(ctx, p['name'])
+    if re.match(r'C03:data', k):
+        return lambda model, p: native.replay_quantile_data(ctx, p['name'])
     if re.match(r'C13:relative_to', k):
         return lambda model, p: native.replay_relative_to(ctx, model, p['name'])
     if re.match(r'C02:(z_normal|wilson):fp-domain', k):
